@@ -26,7 +26,7 @@ def floors(tier):
     k = 1 if tier == "quick" else 8
     return {"headers_judged": 2500 * k, "explicit_calls": 1200 * k, "implicit_calls": 600 * k, "expect_absent": 200 * k,
             "class:nonmatch": 300 * k, "class:escape": 300 * k, "class:empty": 200 * k, "class:extra": 100 * k, "overridden_key": 30 * k,
-            "transport:rest": 700 * k}
+            "transport:rest": 700 * k, "later_page_headers_judged": 400 * k}
 
 
 def plan(seed, tier):
@@ -146,7 +146,19 @@ def run_case(case):
                 exp = refs.implicit_expected(msg, m)
             else:
                 kind, exp, rest_ok, classes = "none", {}, False, ["none"]
+            pages = None
+            if m.name in api.info.get("paged", []):
+                # a listing of three pages: the header must accompany every fetch, not only the first
+                pages = []
+                for k, tok in enumerate(["t1", "t2", ""]):
+                    pm = model.new(m.output_type)
+                    pm.items.extend([f"i{k}a", f"i{k}b"])
+                    pm.next_page_token = tok
+                    pages.append({"pb": rdm.b64(pm.SerializeToString()),
+                                  "json": {"items": [f"i{k}a", f"i{k}b"], "nextPageToken": tok}})
+                classes = classes + ["paged"]
             calls.append({"service": s.name, "rpc": m.name, "method": rdm.py_method(m.name), "req_type": m.input_type.lstrip("."),
+                          "pages": pages, "path": f"/{p.package}.{s.name}/{m.name}",
                           "request": rdm.b64(msg.SerializeToString()), "expected": exp, "kind": kind, "classes": classes,
                           "rest": rest_ok, "form": (api.info.get("explicit", {}).get(m.name) or api.info.get("implicit", {}).get(m.name) or m.name)})
     script = {"root_pkg": apigen.lib_root(api.info, api.options), "calls": calls}
@@ -175,6 +187,31 @@ def run_case(case):
                 viol.append({"clause": "client-raised", "detail": {"rpc": call["rpc"], "transport": tr, "error": o["error"]}, "mech": mech})
                 continue
             hv = o["headers"]
+            if call.get("pages"):
+                # one verdict per fetch of the pager
+                per = o.get("per_call") or []
+                bump("paged_fetches", len(per))
+                if len(per) != len(call["pages"]) or o.get("items") != 2 * len(call["pages"]):
+                    viol.append({"clause": "paged-listing-incomplete", "detail": {"rpc": call["rpc"], "transport": tr, "fetches": len(per),
+                                                                                   "items": o.get("items")}, "mech": mech})
+                    continue
+                bad = None
+                for k, vals in enumerate(per):
+                    gotk = dict(urllib.parse.parse_qsl(vals[0], keep_blank_values=True)) if len(vals) == 1 else ({} if not vals else None)
+                    if gotk != exp:
+                        bad = {"fetch": k, "got": gotk, "raw": vals, "expected": exp}
+                        break
+                    if k:
+                        bump("later_page_headers_judged")
+                if bad:
+                    viol.append({"clause": "header-differs-on-later-page" if bad["fetch"] else "header-differs",
+                                 "detail": {"rpc": call["rpc"], "transport": tr, "form": call["form"], "classes": call["classes"], **bad},
+                                 "mech": mech})
+                else:
+                    sigs.add(f"{call['form']}|{','.join(call['classes'])}|{tr}")
+                    if not exp:
+                        bump("expect_absent")
+                continue
             if len(hv) > 1:
                 viol.append({"clause": "header-repeated", "detail": {"rpc": call["rpc"], "transport": tr, "values": hv}, "mech": mech})
                 continue
@@ -251,22 +288,33 @@ def in_runner(script):
         mark = srv.mark()
         o = {}
         try:
-            getattr(gc[svc], call["method"])(request=req)
+            if call.get("pages"):
+                srv.script(call["path"], [{"payloads": [pg["pb"]]} for pg in call["pages"]])
+                o["items"] = len(list(getattr(gc[svc], call["method"])(request=req)))
+            else:
+                getattr(gc[svc], call["method"])(request=req)
         except BaseException as e:  # noqa
             o["error"] = rt.exc_info(e)
         o["headers"] = md_values(srv.since(mark))
+        o["per_call"] = [md_values([e]) for e in srv.since(mark)]
         results[i]["grpc"] = o
         if call["rest"]:
             mark = http.mark()
             o = {}
             try:
-                getattr(rc[svc], call["method"])(request=lib.mk(call["req_type"], rt.unb64(call["request"])))
+                if call.get("pages"):
+                    import json as _json
+                    http.script([{"body": _json.dumps(pg["json"])} for pg in call["pages"]])
+                    o["items"] = len(list(getattr(rc[svc], call["method"])(request=lib.mk(call["req_type"], rt.unb64(call["request"])))))
+                else:
+                    getattr(rc[svc], call["method"])(request=lib.mk(call["req_type"], rt.unb64(call["request"])))
             except BaseException as e:  # noqa
                 o["error"] = rt.exc_info(e)
             hs = []
             for e in http.since(mark):
                 hs += [v for k, v in e["headers"] if k.lower() == HDR]
             o["headers"] = hs
+            o["per_call"] = [[v for k, v in e["headers"] if k.lower() == HDR] for e in http.since(mark)]
             results[i]["rest"] = o
 
     async def amain():
@@ -278,10 +326,19 @@ def in_runner(script):
             mark = srv.mark()
             o = {}
             try:
-                await getattr(ac[svc], call["method"])(request=lib.mk(call["req_type"], rt.unb64(call["request"])))
+                if call.get("pages"):
+                    srv.script(call["path"], [{"payloads": [pg["pb"]]} for pg in call["pages"]])
+                    pager = await getattr(ac[svc], call["method"])(request=lib.mk(call["req_type"], rt.unb64(call["request"])))
+                    n = 0
+                    async for _ in pager:
+                        n += 1
+                    o["items"] = n
+                else:
+                    await getattr(ac[svc], call["method"])(request=lib.mk(call["req_type"], rt.unb64(call["request"])))
             except BaseException as e:  # noqa
                 o["error"] = rt.exc_info(e)
             o["headers"] = md_values(srv.since(mark))
+            o["per_call"] = [md_values([e]) for e in srv.since(mark)]
             results[i]["aio"] = o
 
     asyncio.run(amain())
